@@ -1,26 +1,29 @@
 package main
 
 import (
+	"bytes"
 	"fmt"
 	"math"
 	"reflect"
 
+	"github.com/hashicorp/hcl/v2/gohcl"
+	"github.com/hashicorp/hcl/v2/hclwrite"
 	"github.com/zclconf/go-cty/cty"
 
 	"verif/engine"
 )
 
-var rule = fmt.Sprintf("Struct family (types.go): Strs, Nums, Opts (attr/optional of string, int kinds, bool, float kinds, []string, []int, [][]string, map[string]string, map[string]bool, *string/*int/*bool/*float64, cty-tagged struct, []struct), Cty (cty.Value attribute), " +
-	"H0/H1/H2 (block fields as struct, *struct, []struct, []*struct whose body type has 0/1/2 labels, between two attributes), Deep (labelled blocks inside labelled blocks), WrapL0/L1/L2/Mid (gohcl.EncodeAsBlock). " +
-	"Values: one field family varied at a time from a fixed base value. String positions (attribute, *string, list element, map value, map key, object attribute, every label, nested attribute) take ALL strings of <= 2 atoms over " +
-	"{a, space, \", \\, $, %%, {, }, LF, TAB, é, U+1F600, ${, %%{} (%d distinct strings; all NFC); two-element positions (list of 2, both labels of a block, labels of 2 repeated blocks, 2 map keys) take all pairs of strings of <= 1 atom (%dx%d); " +
-	"map keys additionally from {a, for, if, in, else, null, true, false, \"\", 'a b', 0, a.b, -, a-b, é, ${x}} singly (each first) and in all unordered pairs; ints {0, ±1, min/max of the type}; floats {0, 0.5, -1.5, 0.1, 1e20, 1e-7, max, smallest denormal}; " +
-	"slices and repeated blocks of length 0..2 (nil and empty); pointers nil/non-nil; block multiplicities as the full product One x Ptr{nil,set} x |Many| 0..2 x |PMany| 0..2; Deep shapes as the full product of 0..2 mid blocks x (0..2 leaf blocks x only{nil,set}) each. " +
-	"Nil elements of []*struct are outside the domain (the encoder documents no representation for them). Every value is encoded (EncodeIntoBody by pointer and by value, EncodeAsBlock for Wrap*), parsed, decoded into a fresh value (DecodeBody, hclsimple) and compared with " +
-	"reflect.DeepEqual modulo nil == empty for slices/maps and convert-to-original-type for cty.Value; its document model is rendered independently as native text and as 4 JSON twins (object/array forms x literal-only/template mode) which must decode to the same value. " +
-	"Oracle 3: every single edit of the document of each value whose swept strings have <= 1 atom (all structural cases, all single-atom strings, the diagonal of the pair positions) (delete/duplicate an item, add an unexpected attribute / block, attribute<->block, add / remove a label, replace an attribute value by each of 16 literals of other types) in both syntaxes must decode without panic; " +
-	"unexpected items and missing required attributes must give error diagnostics, a missing optional attribute must give the value with that field zero (doc.go). " +
-	"thorough: additionally strings of <= 3 atoms over the alphabet extended by {CR, NUL, DEL, U+2028, ~, U+FFFD} (%d strings) at every single string position and all pairs of <= 2-atom strings at the two-element positions (no perturbations for these). " +
+var rule = fmt.Sprintf("Struct family (types.go): Strs, Nums, Opts (attr/optional of string, int kinds, bool, float kinds, []string, []int, [][]string, map[string]string, map[string]bool, *string/*int/*bool/*float64, cty-tagged struct, []struct), Cty (cty.Value attribute), "+
+	"H0/H1/H2 (block fields as struct, *struct, []struct, []*struct whose body type has 0/1/2 labels, between two attributes), Deep (labelled blocks inside labelled blocks), WrapL0/L1/L2/Mid (gohcl.EncodeAsBlock). "+
+	"Values: one field family varied at a time from a fixed base value. String positions (attribute, *string, list element, map value, map key, object attribute, every label, nested attribute) take ALL strings of <= 2 atoms over "+
+	"{a, space, \", \\, $, %%, {, }, LF, TAB, é, U+1F600, ${, %%{} (%d distinct strings; all NFC); two-element positions (list of 2, both labels of a block, labels of 2 repeated blocks, 2 map keys) take all pairs of strings of <= 1 atom (%dx%d); "+
+	"map keys additionally from {a, for, if, in, else, null, true, false, \"\", 'a b', 0, a.b, -, a-b, é, ${x}} singly (each first) and in all unordered pairs; ints {0, ±1, min/max of the type}; floats {0, 0.5, -1.5, 0.1, 1e20, 1e-7, max, smallest denormal}; "+
+	"slices and repeated blocks of length 0..2 (nil and empty); pointers nil/non-nil; block multiplicities as the full product One x Ptr{nil,set} x |Many| 0..2 x |PMany| 0..2; Deep shapes as the full product of 0..2 mid blocks x (0..2 leaf blocks x only{nil,set}) each. "+
+	"Nil elements of []*struct are outside the domain (the encoder documents no representation for them). Every value is encoded (EncodeIntoBody by pointer and by value, EncodeAsBlock for Wrap*), parsed, decoded into a fresh value (DecodeBody, hclsimple) and compared with "+
+	"reflect.DeepEqual modulo nil == empty for slices/maps and convert-to-original-type for cty.Value; its document model is rendered independently as native text and as 4 JSON twins (object/array forms x literal-only/template mode) which must decode to the same value. "+
+	"Oracle 3: every single edit of the document of each value whose swept strings have <= 1 atom (all structural cases, all single-atom strings, the diagonal of the pair positions) (delete/duplicate an item, add an unexpected attribute / block, attribute<->block, add / remove a label, replace an attribute value by each of 16 literals of other types -- the latter only for the non-swept, structural values) in both syntaxes, and every single line deletion / duplication of the real encoder's output, must decode without panic; "+
+	"unexpected items and missing required attributes must give error diagnostics, a missing optional attribute must give the value with that field zero (doc.go). "+
+	"thorough: additionally strings of <= 3 atoms over the alphabet extended by {CR, NUL, DEL, U+2028, ~, U+FFFD} (%d strings) at every single string position and all pairs of <= 2-atom strings at the two-element positions (no perturbations for these). "+
 	"Non-trivial = the round trip succeeded (sig = generated source) or the perturbed document was decoded (sig = edit, outcome, diagnostic summaries or decoded value).",
 	len(strs(atomsQuick, 2)), len(strs(atomsQuick, 1)), len(strs(atomsQuick, 1)), len(strs(atomsExt, 3)))
 
@@ -101,10 +104,25 @@ func gen(tier string, emit func(engine.Case) bool) {
 			}
 			_, doc := toBody(reflect.ValueOf(ptr).Elem())
 			for _, p := range perturbations(doc) {
+				if p.Op == "retype" && len(sweep) > 0 {
+					continue // value replacement does not depend on the swept string: structural cases only
+				}
 				for _, syn := range []string{"native", "json"} {
 					q := p
 					q.Syntax = syn
 					if !emit(mkCase(typ, family, ptr, &q)) {
+						panic(stop{})
+					}
+				}
+			}
+			// every single line deletion / duplication of the real encoder's output
+			enc, pv := encode(func(f *hclwrite.File) { gohcl.EncodeIntoBody(ptr, f.Body()) })
+			if pv != nil {
+				return
+			}
+			for i, n := 0, bytes.Count(enc, []byte("\n")); i < n; i++ {
+				for _, op := range []string{"line-del", "line-dup"} {
+					if !emit(mkCase(typ, family, ptr, &Pert{Op: op, Arg: i, Syntax: "encoded"})) {
 						panic(stop{})
 					}
 				}
